@@ -30,7 +30,7 @@ def mk_PT(f, name, n, symmetric=True, mk_val=None, all_set=False):
                 continue
             v = mk_val(a, b) if mk_val else f.ref('%s_%s%s' % (name, a, b))
             vals[a][b] = v if all_set else f.opt('%s_%s%s' % (name, a, b), v)
-    return f.obj(PT, types=types, symmetric=symmetric, name=name, values=vals)
+    return f.make(PT, args=(types, name, symmetric), types=types, symmetric=symmetric, name=name, values=vals)
 
 
 def mk_VT(f, name, n, mk_val=None, all_set=False):
@@ -39,7 +39,7 @@ def mk_VT(f, name, n, mk_val=None, all_set=False):
     for a in types:
         v = mk_val(a) if mk_val else f.ref('%s_%s' % (name, a))
         vals[a] = v if all_set else f.opt('%s_%s' % (name, a), v)
-    return f.obj(VT, types=types, name=name, values=vals)
+    return f.make(VT, args=(types, name), types=types, name=name, values=vals)
 
 
 def key_choices(n):
